@@ -395,20 +395,24 @@ def build_cases(ctx, rng, sources, invalid, tier, budget):
 
 # ---------------------------------------------------------------- running
 
-def run_in_namespace(ctx, work, real_bin, cases):
+def run_in_namespace(ctx, work, real_bin, cases, remap_cases=(), tag="w"):
     """runs the cases with a pool of namespace workers; returns (setup note, error)"""
-    nw = max(1, min(16, os.cpu_count() or 4, (len(cases) + 2) // 3))
+    remap_cases = list(remap_cases)
+    nw = max(1, min(16, os.cpu_count() or 4, (len(cases) + 2) // 3 + (len(remap_cases) + 1) // 2))
     jobs = []
     for w in range(nw):
-        wdir = os.path.join(work, "w%02d" % w)
+        wdir = os.path.join(work, "%s%02d" % (tag, w))
         os.makedirs(wdir, exist_ok=True)
         mine = cases[w::nw]
-        job = {"work": wdir, "bin": real_bin, "outer_ns": os.readlink("/proc/self/ns/mnt"), "cases": [{"id": c["id"], "argv_hex": [a.hex() for a in c["argv"]], "pre": c["pre"]} for c in mine]}
+        rmine = remap_cases[w::nw]
+        job = {"work": wdir, "bin": real_bin, "outer_ns": os.readlink("/proc/self/ns/mnt"),
+               "cases": [{"id": c["id"], "argv_hex": [a.hex() for a in c["argv"]], "pre": c["pre"]} for c in mine],
+               "remap_cases": [{"id": c["id"], "spec": c["spec"], "layout": c["layout"], "salt": c["salt"]} for c in rmine]}
         jf = os.path.join(wdir, "job.json")
         json.dump(job, open(jf, "w"))
-        for c in mine:
+        for c in mine + rmine:
             c["out"] = os.path.join(wdir, "out", c["id"])
-        jobs.append((jf, len(mine)))
+        jobs.append((jf, len(mine) + len(rmine)))
 
     def one(j):
         jf, n = j
@@ -497,7 +501,7 @@ def judge_add(ctx, work, cases, escape_exe):
             if c["unit"] is None or rc != 0:
                 hits.append({"engine": ENGINE, "clause": "C17.cli_unit", "known_class": None, "input": case_input(c),
                              "observed": {"exit_code": rc, "timeout": c["meta"].get("timeout"), "unit_file": "missing" if c["unit"] is None else "written",
-                                          "stdout": tail(c["stdout"]), "stderr": tail(c["stderr"])},
+                                          "stdout": tail(c["stdout"]), "stderr": tail(c["stderr"]), "processes_at_timeout": c["meta"].get("timeout_processes")},
                              "expected": "exit code 0 and /etc/systemd/system/totalmapper@.service written",
                              "note": "add_systemd_service did not install the unit for an argv the command line accepts"})
                 continue
@@ -606,7 +610,7 @@ def rewrite_excludes(rng, spec_path):
     old = [bytes.fromhex(l[4:]).decode("utf-8", "replace") for l in lines if l.startswith("EXC ")]
     names = [n for n in names_of(text) if n]
     kb = [n for n in names if "eyboard" in n.lower() or "kbd" in n.lower()]
-    likely = ["*", "*eyboard*", "*[Kk]eyboard*", "?*"] + kb + [n[:max(1, len(n) // 2)] + "*" for n in kb]
+    likely = ["*", "*eyboard*", "?*eyboard*"] + kb + kb + [n[:max(1, len(n) // 2)] + "*" for n in kb] + ["*" + n[len(n) // 2:] for n in kb]
     pats = [rng.choice(likely)]
     for _ in range(rng.choice([0, 1, 1, 2])):
         k = rng.random()
@@ -655,7 +659,117 @@ def run_remap_groups(ctx, dirs, real_bin, listing_exe):
         return list(ex.map(one, dirs))
 
 
-def judge_remap(ctx, work, rng, seed, n_scen, real_bin, listing_exe):
+def parse_listing(stderr, header):
+    """the ' * "<path>"[ (excluded)]' lines after `header`, up to the next line that is not one -> [[path, excluded]] or None"""
+    lines = stderr.split("\n")
+    if header not in lines:
+        return None
+    out = []
+    for l in lines[lines.index(header) + 1:]:
+        m = re.match(r'^ \* "(.*)"( \(excluded\))?$', l)
+        if not m:
+            break
+        out.append([m.group(1), bool(m.group(2))])
+    return out
+
+
+def judge_modes(ctx, work, rng, real_bin, spec_paths, ra_lines, builtins):
+    """the three ways of naming devices on the same fabricated system -> (hits, stats, error)"""
+    rcases = [{"id": "m%04d" % i, "spec": sp, "layout": rng.choice(builtins) if builtins else "caps-for-movement", "salt": rng.randrange(3)}
+              for i, sp in enumerate(spec_paths)]
+    _, err = run_in_namespace(ctx, work, real_bin, [], rcases, tag="m")
+    if err:
+        return [], {}, err
+    hits = []
+    st = {"scenarios": 0, "all_vs_auto_compared": 0, "all_vs_dev_file_compared": 0, "dev_file_not_comparable": {}, "all_vs_listing_ns_compared": 0,
+          "selected_nodes": 0, "excluded_nodes": 0, "auto_seconds_max": 0.0, "auto_killed": 0}
+    for c in rcases:
+        try:
+            r = json.load(open(os.path.join(c["out"], "remap.json")))
+        except (OSError, ValueError):
+            return [], {}, "no result for remap scenario " + c["id"]
+        if r.get("setup_error"):
+            return [], {}, "namespace scenario setup failed: " + str(r["setup_error"])
+        st["scenarios"] += 1
+        spec = lst.read_spec(c["spec"])
+        A, D, U = r["all"], r.get("dev_file"), r["auto"]
+        la = parse_listing(A["stderr"], "Got the list of keyboards:")
+        lu = parse_listing(U["stderr"], "Got the current list of keyboards:")
+        st["auto_seconds_max"] = max(st["auto_seconds_max"], U.get("seconds", 0))
+        st["auto_killed"] += 0 if U.get("exited_by_itself") else 1
+
+        def hit(what, observed, expected, note):
+            hits.append({"engine": ENGINE, "clause": "C16.cli_modes_agree", "known_class": None,
+                         "input": {"kind": "remap", "what": what, "argv": {k: ["totalmapper"] + v for k, v in r["argv"].items()},
+                                   "device_list": spec.get("text"), "excludes": spec.get("excludes"), "fabricated_sys": spec.get("sys"),
+                                   "nodes": r.get("nodes"), "spec": spec.get("spec")},
+                         "observed": observed, "expected": expected, "note": note})
+        # (1) --all-keyboards vs --auto-all-keyboards: the same listing with the same flags, or both fail to list
+        st["all_vs_auto_compared"] += 1
+        if la != lu:
+            hit("all-keyboards vs auto-all-keyboards", {"all_keyboards": la if la is not None else (A["stdout"] + A["stderr"])[-300:],
+                                                        "auto_all_keyboards_first_round": lu if lu is not None else (U["stdout"] + U["stderr"])[-300:]},
+                "the same devices listed, the same ones flagged (excluded)",
+                "--all-keyboards and the first round of --auto-all-keyboards list/exclude different devices on the same system with the same patterns")
+        if la is not None:
+            st["selected_nodes"] += sum(1 for _, x in la if not x)
+            st["excluded_nodes"] += sum(1 for _, x in la if x)
+        # (2) the same command as run by tm-harness listing-ns on the same scenario (that one is compared with the model)
+        ra = ra_lines.get(os.path.basename(c["spec"]))
+        if ra is not None:
+            st["all_vs_listing_ns_compared"] += 1
+            mine = [[p_, x] for p_, x in la] if la is not None else None
+            if mine != ra:
+                hit("all-keyboards, two runs", {"this_run": mine, "listing_ns_run": ra}, "the same listing from the same command on the same fabricated system",
+                    "two runs of `remap --all-keyboards --verbose` over the same fabricated system disagree")
+        # (3) --dev-file <every node> --only-if-keyboard: comparable when no /sys lookup fails and sysfs paths are distinct
+        why = None
+        sysfs = re.findall(r"^S: Sysfs=(.*)$", spec.get("text", ""), re.M)
+        if D is None:
+            why = "no device node"
+        elif any(len(x) > 1 and x[1] in ("missing", "nouevent") for x in spec.get("sys", [])):
+            why = "a /sys lookup fails (list_input_devices looks up every device, list_keyboards only keyboards)"
+        elif len(set(sysfs)) != len(sysfs) or len([l for l in spec.get("text", "").split("\n") if l.startswith("I:")]) != len(sysfs):
+            why = "two entries share a sysfs path or an entry has none"
+        elif la is None:
+            why = "--all-keyboards did not list"
+        if why:
+            st["dev_file_not_comparable"][why] = st["dev_file_not_comparable"].get(why, 0) + 1
+            continue
+        st["all_vs_dev_file_compared"] += 1
+        sel_a = sorted(p_ for p_, x in la if not x)
+        if "Remapping " not in D["stderr"]:
+            sel_d = None
+        else:
+            sel_d = sorted(n for n in r["nodes"] if ("Skipping %s (" % n) not in D["stderr"] and ("Skipping %s because" % n) not in D["stderr"])
+        if sel_d != sel_a:
+            hit("all-keyboards vs dev-file", {"all_keyboards_selects": sel_a, "dev_file_only_if_keyboard_selects": sel_d if sel_d is not None else (D["stdout"] + D["stderr"])[-400:]},
+                "the same set of device nodes", "--all-keyboards and --dev-file <every node> --only-if-keyboard select different devices on the same system with the same patterns")
+    stats = {"cli_modes_scenarios": st["scenarios"], "cli_modes_all_vs_auto": st["all_vs_auto_compared"], "cli_modes_all_vs_dev_file": st["all_vs_dev_file_compared"],
+             "cli_modes_all_vs_listing_ns": st["all_vs_listing_ns_compared"], "cli_modes_dev_file_not_comparable": st["dev_file_not_comparable"],
+             "cli_modes_selected_nodes": st["selected_nodes"], "cli_modes_excluded_nodes": st["excluded_nodes"],
+             "cli_modes_auto_seconds_max": st["auto_seconds_max"], "cli_modes_auto_killed_after_first_round": st["auto_killed"]}
+    hits.sort(key=lambda h: len(h["input"].get("device_list") or ""))
+    return hits, stats, None
+
+
+def ra_listings(nsout):
+    """{spec basename: [[path, excluded]] | None} from the RA lines of a listing-ns output"""
+    res, cur = {}, None
+    for line in open(nsout, encoding="utf-8", errors="replace"):
+        t = line.rstrip("\n").split(" ")
+        if t[0] == "NS" and len(t) > 2:
+            cur = os.path.basename(t[2])
+        elif t[0] == "RA" and cur is not None:
+            try:
+                n = int(t[4])
+                res[cur] = [[bytes.fromhex(t[5 + 2 * i]).decode("utf-8", "replace"), t[6 + 2 * i] == "1"] for i in range(n)] if int(t[3]) >= 0 else None
+            except (ValueError, IndexError):
+                res[cur] = None
+    return res
+
+
+def judge_remap(ctx, work, rng, seed, n_scen, real_bin, listing_exe, builtins=()):
     """-> (hits, stats, samples, error)"""
     gdir = os.path.join(work, "c16gen")
     rc, out, _ = ctx["sh"]([ctx["harness"], "listing-gen", "--out", gdir, "--seed", str(seed), "--tier", "quick", "--repo", ctx["repo"], "--shards", "1",
@@ -706,7 +820,16 @@ def judge_remap(ctx, work, rng, seed, n_scen, real_bin, listing_exe):
     stats = {"cli_remap_scenarios": summary.get("ns_real_binary_scenarios", 0), "cli_remap_exclude_patterns": n_pats,
              "cli_remap_comparisons": summary.get("ns_comparisons", 0), "cli_remap_selected_nodes": summary.get("ns_selected_nodes", 0)}
     hits.sort(key=lambda h: len(h["input"].get("device_list") or ""))
-    return hits, stats, [], None
+    # the three ways of naming devices, on the same scenarios
+    ra = {}
+    for d in dirs:
+        ra.update(ra_listings(os.path.join(d, "ns.out")))
+    mhits, mstats, err = judge_modes(ctx, work, rng, real_bin, sorted(glob.glob(os.path.join(work, "c16", "g*", "*.spec"))), ra, list(builtins))
+    if err:
+        return [], {}, [], err
+    stats.update(mstats)
+    stats["cli_remap_comparisons"] += mstats["cli_modes_all_vs_auto"] + mstats["cli_modes_all_vs_dev_file"] + mstats["cli_modes_all_vs_listing_ns"]
+    return hits + mhits, stats, [], None
 
 
 # ---------------------------------------------------------------- entry points
@@ -778,13 +901,29 @@ def run(ctx):
         setup, err = run_in_namespace(ctx, work, real_bin, cases)
         if err:
             return done(err)
+        # a run that hit the 10 s limit is run once more, alone (the real adduser/groupadd/usermod occasionally stall when
+        # the machine is busy); only a second time-out is judged
+        slow, slow_note = [], None
+        for c in cases:
+            try:
+                m = json.load(open(os.path.join(c["out"], "meta.json")))
+                if m.get("timeout"):
+                    slow.append(c)
+                    slow_note = slow_note or m.get("timeout_processes")
+            except (OSError, ValueError):
+                pass
+        if slow and len(slow) <= 8:
+            _, err = run_in_namespace(ctx, work, real_bin, slow, tag="retry")
+            if err:
+                return done(err)
         hits, stats, samples, err = judge_add(ctx, work, cases, escape_exe)
         if err:
             return done(err)
         t_add = time.time() - ta
         tr = time.time()
         n_scen = (200 if thorough else 8) * mult
-        rhits, rstats, _, err = judge_remap(ctx, work, rng, seed + (7919 if mult > 1 else 0), n_scen, real_bin, listing_exe)
+        rhits, rstats, _, err = judge_remap(ctx, work, rng, seed + (7919 if mult > 1 else 0), n_scen, real_bin, listing_exe,
+                                            notes.get("builtins_listed_by_the_binary") or [])
         if err:
             return done(err)
         t_remap = time.time() - tr
@@ -801,6 +940,9 @@ def run(ctx):
         evaluations = stats.get("cli_unit_files_checked", 0) + stats.get("cli_saved_layouts_reloaded", 0) + rstats.get("cli_remap_comparisons", 0)
         stats.update(rstats)
         stats.update(notes)
+        stats["cli_runs_repeated_after_a_timeout"] = len(slow)
+        if slow_note:
+            stats["cli_processes_at_first_timeout"] = slow_note
         stats.update({
             "cli_namespace_run": "ran: %d add_systemd_service runs and %d remap scenarios of the real binary in private mount namespaces" % (
                 stats.get("cli_add_systemd_service_runs", 0), rstats.get("cli_remap_scenarios", 0)),
@@ -894,6 +1036,19 @@ def replay(ctx, rp):
                 if "real-binary" in str(x["input"].get("via")):
                     n += 1
                     print("HIT %s: observed=%s expected=%s" % (x["clause"], x["observed"], x["expected"]))
+        # the three ways of naming devices
+        av = inp.get("argv")
+        av = av.get("all", []) if isinstance(av, dict) else (av or [])
+        lay = [av[i + 1] for i in range(len(av) - 1) if av[i] == "--default-layout"] or ["caps-for-movement"]
+        nsout = os.path.join(d, "ns.out")
+        mh, ms, err = judge_modes(ctx, work, random.Random(0), real_bin, [os.path.join(d, "0000.spec")], ra_listings(nsout) if os.path.exists(nsout) else {}, lay[:1])
+        if err:
+            print("three-modes run failed: " + err)
+        for h in mh:
+            n += 1
+            print("HIT %s (%s): observed=%s expected=%s" % (h["clause"], h["input"]["what"], json.dumps(h["observed"], ensure_ascii=True)[:900], json.dumps(h["expected"])))
+        if not err:
+            print("three modes: %s" % json.dumps({k: v for k, v in ms.items() if k != "cli_modes_dev_file_not_comparable" or v}))
         print("REPRODUCED" if n else "NOT REPRODUCED on the current tree")
     print("recorded observed: %s" % json.dumps(rp.get("observed"), ensure_ascii=True)[:600])
     shutil.rmtree(work, ignore_errors=True)
